@@ -13,4 +13,7 @@ SCR=$(mktemp -d "$ROOT/mossverif-setup.XXXXXX") || exit 1
 trap 'rm -rf "$SCR"' EXIT
 bash "$V/scripts/build.sh" "$SCR" race || exit 1
 "$SCR/bin/mossmc" list
+# conformance of the rewrite: the repository's own suite on the rewritten sources with one-to-one real primitives
+# (informational here: the suite has timing-sensitive tests that can flake on a loaded machine)
+bash "$V/scripts/conformance.sh" 2>&1 | tail -3 | tee "$V/.cache/conformance.txt"
 echo "setup: ok"
